@@ -764,7 +764,11 @@ func c20Export(c *core.Ctx, fns []*ssa.Function) {
 							return true
 						}
 					}
-					return false
+					// or through a boolean classification helper handed the value (isUnusable(v) = IsNaN(v) || ...): the
+					// outcome of the helper that dominates the Export implies, inside the helper, the predicate's false edge
+					return g3GuardedByBoolHelper(v, blk, func(cj ssa.CallInstruction, x ssa.Value) bool {
+						return isGojaFunc(cj, pred) && len(cj.Common().Args) > 0 && cj.Common().Args[0] == x
+					})
 				}, 0)
 				c.Check(ok, "R20c", key+" after !"+pred, core.InstrPos(ci), "Export is reachable only when goja."+pred+" is false for the same value",
 					"Export can be reached without goja."+pred+"(v) having been found false: a "+strings.TrimPrefix(pred, "Is")+" result would be emitted instead of an error")
